@@ -154,6 +154,7 @@ type errVar struct {
 
 type pst struct {
 	defs      map[types.Object]ast.Expr     // locals defined once by a side-effect-free expression whose inputs were not written since
+	snap      map[types.Object]bool         // defs `x := B.String()` that outlive B.Reset(): x stands for what B held when it was reset
 	valErr    map[types.Object]types.Object // value variable -> error variable of the same tuple assignment
 	boolDefs  map[types.Object]ast.Expr     // local bool variables defined once by an expression
 	bufState  map[string]string             // builder name -> empty | nonempty
@@ -186,6 +187,10 @@ func (s *pst) clone() *pst {
 	n.bufState = map[string]string{}
 	for k, v := range s.bufState {
 		n.bufState[k] = v
+	}
+	n.snap = map[types.Object]bool{}
+	for k, v := range s.snap {
+		n.snap[k] = v
 	}
 	n.setVars = map[types.Object]string{}
 	for k, v := range s.setVars {
@@ -253,6 +258,9 @@ func mentions(txt, p string) bool {
 
 func (s *pst) invalidate(prefixes ...string) {
 	for o, d := range s.defs {
+		if s.snap[o] {
+			continue
+		}
 		txt := types.ExprString(d)
 		for _, p := range prefixes {
 			if mentions(txt, p) {
@@ -1142,6 +1150,17 @@ func (a *smAn) call(call *ast.CallExpr, s *pst) {
 				switch callee.Name() {
 				case "Reset":
 					s.bufState[id.Name] = "empty"
+					// `segment := buffer.String(); buffer.Reset(); … isX(segment)`: nothing was written between the
+					// definition and the reset (a write would have dropped the definition), so the local stands for what
+					// the builder held at the end - which is what a test of buffer.String() before the reset reads
+					for o, d := range s.defs {
+						if types.ExprString(d) == id.Name+".String()" {
+							if s.snap == nil {
+								s.snap = map[types.Object]bool{}
+							}
+							s.snap[o] = true
+						}
+					}
 				case "WriteRune", "WriteString", "WriteByte", "Write":
 					s.bufState[id.Name] = "nonempty"
 					w := bufWrite{Buffer: id.Name, Class: "other", Pos: call.Pos(), Special: triU}
